@@ -260,6 +260,53 @@ func genTLSTokens(repo string) (string, error) {
 		ok = false
 	}
 	fmt.Fprintf(&b, "Definition sds_update_always_installs : bool := %v.\n", always)
+	// confighook.go GetX509Pool reads the CA file on every call and keeps nothing: its body (and the helpers it calls in the
+	// same file) reads the file and touches no package-level variable
+	poolCached := true
+	if _, cf, err := ParseGoFile(repo, "pkg/mtls/confighook.go"); err == nil {
+		pkgVars := map[string]bool{}
+		for _, d := range cf.Decls {
+			if gd, isg := d.(*ast.GenDecl); isg && gd.Tok == token.VAR {
+				for _, sp := range gd.Specs {
+					if vs, isv := sp.(*ast.ValueSpec); isv {
+						for _, n := range vs.Names {
+							pkgVars[n.Name] = true
+						}
+					}
+				}
+			}
+		}
+		if fd := FindFunc(cf, "defaultConfigHooks", "GetX509Pool"); fd != nil {
+			reads, touches := false, false
+			ast.Inspect(fd.Body, func(n ast.Node) bool {
+				switch x := n.(type) {
+				case *ast.CallExpr:
+					if f := exprString(x.Fun); f == "ioutil.ReadFile" || f == "os.ReadFile" {
+						reads = true
+					}
+					if sel, iss := x.Fun.(*ast.SelectorExpr); iss {
+						switch sel.Sel.Name {
+						case "Load", "Store", "LoadOrStore", "LoadAndDelete":
+							touches = true
+						}
+					}
+				case *ast.Ident:
+					if pkgVars[x.Name] && x.Obj != nil && x.Obj.Kind == ast.Var {
+						if _, isDecl := x.Obj.Decl.(*ast.ValueSpec); isDecl {
+							touches = true
+						}
+					}
+				}
+				return true
+			})
+			poolCached = !reads || touches
+		} else {
+			ok = false
+		}
+	} else {
+		ok = false
+	}
+	fmt.Fprintf(&b, "Definition tls_ca_pool_cached : bool := %v.\n", poolCached)
 	fmt.Fprintf(&b, "Definition TLSTokens_translator_ok := %v.\n", ok)
 	return b.String(), nil
 }
